@@ -12,10 +12,12 @@ VERIF = os.path.dirname(os.path.dirname(os.path.abspath(__file__)))
 
 # name: (property, file relative to src/, old text, new text, description)
 M = {}
+MODE = {}
 
 
-def mut(name, prop, path, old, new, desc):
+def mut(name, prop, path, old, new, desc, first=False, all=False):
     M[name] = (prop, path, old, new, desc)
+    MODE[name] = "first" if first else "all" if all else "one"
 
 
 mut("c04_no_retry_under_waiter_lock", "C04", "include/abti_mutex.h",
@@ -123,6 +125,56 @@ mut("c07_fifo_pop_many_stops_early", "C07", "pool/fifo.c",
         ABTD_spinlock_release(&p_data->mutex);""", "FIFO pop_many returns at most two units even if more were requested and present")
 mut("c07_fifo_wait_push_many_order", "C07", "pool/fifo_wait.c",
     None, None, "placeholder")
+mut("c11_blocked_published_before_switch", "C11", "include/abti_ythread.h",
+    """    ABTI_ythread_switch_to_parent_internal(pp_local_xstream, p_self,
+                                           ABTI_ythread_callback_suspend,
+                                           (void *)p_self);""",
+    """    /* mutant: publish BLOCKED before the context is saved */
+    ABTD_atomic_release_store_int(&p_self->thread.state,
+                                  ABT_THREAD_STATE_BLOCKED);
+    ABTI_ythread_switch_to_parent_internal(pp_local_xstream, p_self,
+                                           ABTI_ythread_callback_suspend,
+                                           (void *)p_self);""", "ABT_self_suspend publishes BLOCKED before switching away (resume can race with the context save)")
+mut("c11_yield_to_no_preincrement", "C11", "thread.c",
+    """    ABTI_pool_inc_num_blocked(p_cur_ythread->thread.p_pool);
+    int abt_errno = ABTI_pool_remove(p_tar_ythread->thread.p_pool,""",
+    """    int abt_errno = ABTI_pool_remove(p_tar_ythread->thread.p_pool,""", "ABT_thread_yield_to without the pre-increment of num_blocked (counter goes negative)")
+mut("c02_no_stack_align", "C02", "arch/fcontext/fcontext_x86_64_sysv_elf_gas.S",
+    """    andq  $-16, %rdx
+""", "", "new contexts start on an unaligned stack top", all=True)
+mut("c02_switch_no_x87_restore", "C02", "arch/fcontext/fcontext_x86_64_sysv_elf_gas.S",
+    """    /* restore x87 control-word */
+    fldcw  0x4(%rsp)
+""", "", "switch_fcontext does not restore the x87 control word", first=True)
+mut("c02_switch_with_call_swaps_r14_r15", "C02", "arch/fcontext/fcontext_x86_64_sysv_elf_gas.S",
+    """    popq  %r14  /* restrore R14 */
+    popq  %r15  /* restrore R15 */""",
+    """    popq  %r15  /* restrore R14 */
+    popq  %r14  /* restrore R15 */""", "context restore pops r14/r15 in the wrong order (all paths)", all=True)
+mut("c06_revert_migration_rebalance", "C06", "ythread.c",
+    """    if (ABTU_unlikely(p_new_pool != p_pool)) {
+        ABTI_pool_inc_num_blocked(p_new_pool);
+        ABTI_pool_dec_num_blocked(p_pool);
+    }""", """    (void)p_new_pool;""", "reverts fix d27794a: num_blocked unbalanced when a pending migration is handled at suspend")
+mut("c06_has_unit_ignores_blocked", "C06", "sched/sched.c",
+    """                if (ABTD_atomic_acquire_load_int32(&p_pool->num_scheds) == 1) {""",
+    """                if (0 && ABTD_atomic_acquire_load_int32(&p_pool->num_scheds) == 1) {""", "termination check ignores blocked units of non-private pools served by a single scheduler")
+mut("c06_resume_dec_before_push", "C06", "include/abti_ythread.h",
+    """    /* Add the ULT to its associated pool */
+    ABTI_pool_add_thread(&p_ythread->thread, ABT_POOL_CONTEXT_OP_THREAD_RESUME);
+
+    /* Decrease the number of blocked threads */
+    ABTI_pool_dec_num_blocked(p_pool);""",
+    """    /* Decrease the number of blocked threads */
+    ABTI_pool_dec_num_blocked(p_pool);
+
+    /* Add the ULT to its associated pool */
+    ABTI_pool_add_thread(&p_ythread->thread, ABT_POOL_CONTEXT_OP_THREAD_RESUME);""", "resume decrements num_blocked before pushing the unit (window with an empty pool and no blocked unit)")
+mut("c06_suspend_unlock_no_inc", "C06", "ythread.c",
+    """    ABTD_spinlock *p_lock = p_arg->p_lock;
+    /* Increase the number of blocked threads */
+    ABTI_pool_inc_num_blocked(p_prev->thread.p_pool);""",
+    """    ABTD_spinlock *p_lock = p_arg->p_lock;""", "units blocking on a synchronisation object are not counted as blocked")
 mut("c01_fifo_no_second_empty_check", "C01", "pool/thread_queue.h",
     None, None, "placeholder")
 mut("c03_join_no_final_wait", "C03", "thread.c",
@@ -149,10 +201,11 @@ def run(name, runs, budget):
     subprocess.check_call(["rsync", "-a", "--exclude", ".libs", "--exclude", "*.o", "--exclude", "*.lo", "/repo/src", scratch + "/"])
     p = os.path.join(scratch, "src", path)
     s = open(p).read()
-    if s.count(old) != 1:
+    mode = MODE.get(name, "one")
+    if (mode == "one" and s.count(old) != 1) or s.count(old) == 0:
         shutil.rmtree(scratch, ignore_errors=True)
         return {"mutant": name, "error": "pattern occurs %d times" % s.count(old)}
-    open(p, "w").write(s.replace(old, new))
+    open(p, "w").write(s.replace(old, new) if mode == "all" else s.replace(old, new, 1))
     t0 = time.time()
     cmd = [os.path.join(VERIF, "bin", "check"), prop, "--repo", scratch, "--no-evidence"]
     if runs:
